@@ -16366,3 +16366,22 @@ let rec trp e k =
          | _ -> None)
       | None -> None)
    | _ -> None)
+
+(** val number_q : bytes0 -> nat -> bool -> bool -> bytes0 **)
+
+let rec number_q s k inq ins =
+  match s with
+  | [] -> []
+  | c :: r ->
+    if (&&) ((=) c '"') (negb ins)
+    then c :: (number_q r k (negb inq) ins)
+    else if (&&) ((=) c '\'') (negb inq)
+         then c :: (number_q r k inq (negb ins))
+         else if (&&) ((&&) ((=) c '?') (negb inq)) (negb ins)
+              then '$' :: (app (pnum k) (number_q r (S k) inq ins))
+              else c :: (number_q r k inq ins)
+
+(** val number_placeholders : bytes0 -> bytes0 **)
+
+let number_placeholders s =
+  number_q s (S O) false false
